@@ -341,20 +341,21 @@ Theorem c20_vmt_shader_with_space_refuted :
 Proof. exact VQP.shader_with_space_refuted. Qed.
 
 (** * Whole written lines (TL := Fmt.TextLines): what one `file.write(template)` of a text writer produces, as a list of
-    self-delimiting items regenerated from the source (today: every template of sndscript.Sound.export, `snd_lines`; the check
-    discharges [items_ok] for each of them and that none is unstructured).  For every escape table with [esc_ok], every
+    self-delimiting items regenerated from the source (every template of sndscript.Sound.export, `snd_lines`, none unstructured;
+    the templates of the choreo export_text methods that are whole items, `cho_lines`, with the run-time indent as the item IInd;
+    the check discharges [items_ok] for each).  For every escape table with [esc_ok], every
     structured line, every line number and ALL field values within [vals_ok] (one value per field; a raw quoted field without
     quote / backslash / line break, a bare field a bare word, an escaped quoted field anything): the tokenizer model reads the
     written text back as exactly the keywords, braces, newlines and field values, in order *)
 Module TL := Fmt.TextLines.
 Module TLP := Fmt.TextLinesProofs.
-Theorem c20_text_line_reads_back : forall E, KvSym.esc_ok E = true -> forall its, TL.items_ok its = true ->
-  forall vs l, TL.vals_ok its vs = true ->
-  KvLexProofs.lexes E l (TL.render E its vs) (TL.toks its vs) (TL.lines its l).
+Theorem c20_text_line_reads_back : forall E ind, KvSym.esc_ok E = true -> KvSym.ws_only ind = true ->
+  forall its, TL.items_ok its = true -> forall vs l, TL.vals_ok its vs = true ->
+  KvLexProofs.lexes E l (TL.render E ind its vs) (TL.toks its vs) (TL.lines its l).
 Proof. exact TLP.items_lex. Qed.
-Theorem c20_text_lines_of_a_writer_read_back : forall E ls, KvSym.esc_ok E = true -> forallb TL.items_ok ls = true ->
-  forall its vs l, In its ls -> TL.vals_ok its vs = true ->
-  KvLexProofs.lexes E l (TL.render E its vs) (TL.toks its vs) (TL.lines its l).
+Theorem c20_text_lines_of_a_writer_read_back : forall E ind ls, KvSym.esc_ok E = true -> KvSym.ws_only ind = true ->
+  forallb TL.items_ok ls = true -> forall its vs l, In its ls -> TL.vals_ok its vs = true ->
+  KvLexProofs.lexes E l (TL.render E ind its vs) (TL.toks its vs) (TL.lines its l).
 Proof. exact TLP.lines_lex. Qed.
 (** the unquoted low/high pair `95, 110` (the repaired soundscript defect) is not a bare word: as a bare field it is outside [vals_ok] *)
 Theorem c20_text_bare_pair_is_not_a_word_refuted : TL.word_ok [57; 53; 44; 32; 49; 49; 48]%N = false.
